@@ -56,6 +56,10 @@ pub assume_specification<T: std::ops::Deref> [std::option::Option::<T>::as_deref
 pub broadcast axiom fn axiom_string_deref_view(s: &String)
     ensures #[trigger] deref_target(s)@ == s@;
 
+// TRUSTED[vec-deref-view]: dereferencing a Vec<T> yields the slice of its elements (std: `impl Deref for Vec<T>` is `as_slice`).
+pub broadcast axiom fn axiom_vec_deref_view<T>(v: &Vec<T>)
+    ensures #[trigger] deref_target(v)@ == v@;
+
 /// Lexicographic comparison of two sequences by the element order (shorter prefix lower).
 pub open spec fn seq_lex<T: Ord>(a: Seq<T>, b: Seq<T>) -> Ordering
     decreases a.len()
